@@ -170,6 +170,26 @@ PROPS["C10"] = {
     "standins": {f: {"driver": INDEX_EXPLORE, "bound": _IDX_BOUND} for f in [_IDX + "reset", _IDX + "add_values", _IDX + "get_values"]},
     "bounded_always": {"xandikos.store.Store.iter_with_filter": {"driver": INDEX_EXPLORE, "bound": _IDX_BOUND}},
 }
+SCHEDULE = "schedule_explore.py"
+_SCHED_BOUND = ("6 scenarios of 2-3 store operations (conditional / unconditional puts of new and existing names with equal and different "
+                "UIDs, deletes) x (separate store objects = processes | one shared store object = worker threads) x (tree-git, bare-git); "
+                "every schedule with <= 1 (quick) / <= 2 (thorough) preemptions over the yield points (uid/etag check, lock file, index "
+                "read, commit, ref update, index write), at most 150 / 1500 schedules per case; answers and final contents must be those "
+                "of some serial order of the operations that were not refused as locked")
+PROPS["C05"] = {
+    "level": "other",
+    "functions": [G + "TreeGitStore._import_one", G + "TreeGitStore.delete_one", G + "GitStore._check_duplicate"],
+    "explanation": "Contracts are over one call, so they decide only the lock discipline of each write primitive: the tree store's index "
+                   "read-modify-write, object writes and commit all happen between acquiring and releasing index.lock, LockedError is raised "
+                   "exactly when the lock is busy and then nothing was written, and the uid / etag check has no effect of its own. "
+                   "Interleavings are explored by a bounded cooperative-scheduler stand-in only. Genuine deviations are known findings: the "
+                   "check runs outside the lock (tree store: two conditional updates / same-UID creates both succeed), and the bare store "
+                   "commits a stale tree (lost updates).",
+    "replay": {f: SCHEDULE for f in [G + "TreeGitStore._import_one", G + "TreeGitStore.delete_one", G + "GitStore._check_duplicate"]},
+    "standins": {f: {"driver": SCHEDULE, "bound": _SCHED_BOUND} for f in [G + "TreeGitStore._import_one", G + "TreeGitStore.delete_one",
+                                                                           G + "GitStore._check_duplicate"]},
+    "bounded_always": {"xandikos.store.git.GitStore.import_one": {"driver": SCHEDULE, "bound": _SCHED_BOUND}},
+}
 DISCOVERY = "discovery_explore.py"
 _DISC_BOUND = ("2 front ends, started through their real entry points (xandikos.web.main up to socket setup; import of xandikos.wsgi) x 4 "
                "route prefixes ('/', '/dav', '/dav/', '/a/b/') x 4 principal paths (with/without trailing slash, nested) x restart sequences "
